@@ -228,6 +228,14 @@ def run_case(case):
     for t in case["transforms"]:
         R, tr = _transform(Xref, Z, t)
         Xt = Xref @ R.T + tr
+        if t["kind"] == "align" and t["cone"] == 0.0:
+            # users type exact zeros: make the aligned pair vector EXACTLY parallel to the axis (the rotation leaves
+            # 1e-16 residues in the perpendicular components, which would miss exact-singularity code paths)
+            ia, ja = t["pair"]
+            k = "xyz".index(t["axis"][1])
+            for p in range(3):
+                if p != k:
+                    Xt[ja, p] = Xt[ia, p]
         out = run.single_point(Z, Xt, sett, charges=q, mult=m)
         if out["notconverged"] is not None and bool(np.any(out["notconverged"])):
             continue
@@ -240,6 +248,15 @@ def run_case(case):
         nontrivial = True
         mech = classify(Z, Xt, method)
         bad = []
+        # a non-finite output with a clean convergence flag is never one of the listed singular-set mechanisms
+        # (those give finite, wrong numbers): report it unclassified
+        nonfin = [k for k in ("Etot", "Eelec", "Enuc", "Hf", "force", "q", "e_mo", "dipole")
+                  if out.get(k) is not None and not np.all(np.isfinite(np.asarray(out[k], float)))]
+        if nonfin:
+            mon["non_finite_outputs"] = mon.get("non_finite_outputs", 0) + 1
+            viol.append({"clause": "non-finite-output-with-clean-flag", "mech": None,
+                         "detail": {"fields": nonfin, "transform": t, "coords": Xt.tolist(), "species": Z}})
+            continue
         for k in ("Etot", "Eelec", "Enuc", "Hf"):
             d = abs(float(out[k][0]) - float(ref[k][0]))
             if upd("d" + k, d, TOL_E):
